@@ -42,8 +42,9 @@ ASSUMPTIONS = ["git 2.39, repositories without remote, fixed author/committer da
 LAYOUTS = {
     "calver": dict(
         pattern="vYYYY0M.BUILD[-TAG]", start="v202001.1001-beta", date=dt.date(2020, 1, 20),
-        files={"README.md": ["ver={version};", "pep={pep440_version};"], "src/__init__.py": ['__version__ = "{version}"']},
-        content={"README.md": "# demo\nver=v202001.1001-beta;\npep=202001.1001b0;\nend\n", "src/__init__.py": '__version__ = "v202001.1001-beta"\n'},
+        # README.md: two different patterns on ONE line, the one configured first standing to the right
+        files={"README.md": ["pep={pep440_version};", "ver={version};"], "src/__init__.py": ['__version__ = "{version}"']},
+        content={"README.md": "# demo\ninstall ver=v202001.1001-beta; (pep=202001.1001b0;) today\nend\n", "src/__init__.py": '__version__ = "v202001.1001-beta"\n'},
         u=[], u2=["--tag", "rc"], u3=["--tag", "final"], fail=["--set-version", "v201901.0001"],
     ),
     "semver": dict(
@@ -128,8 +129,9 @@ def occurrences(layout):
     tree = world.read_tree(".")
     if layout == "calver":
         t = tree["README.md"].decode()
-        out.append(("README.md", "version", re.search(r"ver=(.*);", t).group(1)))
-        out.append(("README.md", "pep440", re.search(r"pep=(.*);", t).group(1)))
+        m = re.search(r"^install ver=(.*); \(pep=(.*);\) today$", t, flags=re.M)
+        out.append(("README.md", "version", m.group(1) if m else "<line damaged: " + t.split("\n")[1] + ">"))
+        out.append(("README.md", "pep440", m.group(2) if m else "<line damaged>"))
         out.append(("src/__init__.py", "version", re.search(r'__version__ = "(.*)"', tree["src/__init__.py"].decode()).group(1)))
     elif layout == "semver":
         out.append(("setup.py", "pep440", re.search(r'version="(.*)"\)', tree["setup.py"].decode()).group(1)))
